@@ -16,6 +16,10 @@ INFO = {
  "S-C14-1": ("C14", "estimate_minor accumulates candidate variants into gene.random_mutations in place", "two minor-stage calls on one Gene object, or comparing the catalogue with a fresh load", "caught as written"),
  "S-C15-1": ("C15", "major._filter_alleles applies the first threshold on the unfiltered coverage", "a site with exactly one qualifying reference read plus low-quality reads", "missed at first; caught after the lone-reference-read deviation was added to C15"),
  "S-C16-1": ("C16", "VCF deletion op built from the record's REF instead of the RefSeq-derived reference", "a deletion record whose REF differs from the reference in a deleted base", "missed at first; caught after the 'delref' encoding was added to C16"),
+ "S-C08-1": ("C08", "gene.get_refseq reads the strand-adjusted position slot instead of the written one", "a - strand gene and a variant whose anchor moves under the strand flip (insertion, multi-base deletion, MNV, del-ins)", "caught as written"),
+ "S-C17-1": ("C17", "dump writer keeps only fragments linking more than two database positions (len > 2)", "phasing decisive and the linking reads cover exactly two database sites", "caught as written (the phase-decisive paired samples)"),
+ "S-C18-1": ("C18", "Profile.update skips falsy values (if v and ...) instead of only None", "a native falsy value (False, 0, 0.0, '') for a parameter, incl. options in a profile file and the write->load round trip", "caught as written"),
+ "S-C19-1": ("C19", "_load_sam applies the locus filter only for unindexed input", "an indexed BAM with reads stacked in the 500 bases before the locus and none in it, with a user-supplied structure / no CN calling", "missed at first; caught after the 'pad' read placement was added to C19"),
  "S-C01-1": ("C01", "sam._parse_read counts a merged MNV also as reference at its first position", "two or more copies carrying a functional MNV allele (BAM input)", "caught as written (C01 and C06)"),
 }
 for sid in sorted(os.listdir(ROOT)):
